@@ -18,7 +18,12 @@ import (
 func init() {
 	verifRegister("HarnessRaft_HandleMsg", HarnessRaft_HandleMsg)
 	verifRegister("HarnessRaft_Roles", HarnessRaft_Roles)
+	verifRegister("HarnessRaft_HandleMsgDeep", HarnessRaft_HandleMsgDeep)
+	verifRegister("HarnessRaft_RolesDeep", HarnessRaft_RolesDeep)
 }
+
+var rfClientID int32 = 19 // 6*NumServers+1, set by rfNew
+var rfMaxLog = 2
 
 type rfSys struct {
 	d     *specDriver
@@ -54,6 +59,7 @@ func rfNew(n int, self int32) *rfSys {
 	for _, k := range []string{"ExploreFail", "Debug", "NumServers", "NumClients", "BufferSize", "MaxTerm", "MaxCommitIndex", "MaxNodeFail", "LogConcat", "LogPop", "LeaderTimeoutReset", "NumRequests", "AllStrings"} {
 		consts = append(consts, distsys.DefineConstantValue(k, cv[k]))
 	}
+	rfClientID = int32(6*n + 1)
 	s := &rfSys{d: d, ec: ec, n: n, self: self, procs: map[string]*specProc{}}
 	g := func(name string) distsys.ArchetypeResource { return &specGlobal{d: d, name: name} }
 	mk := func(key string, arch distsys.MPCalArchetype, id int32, locals []string) {
@@ -102,7 +108,7 @@ func rfCmd(tag string) tla.Value {
 }
 
 func rfEntry(tag string, maxTerm int32) tla.Value {
-	return rfRec(rfS("term"), rfNum(rfRange(tag+".term", 1, maxTerm)), rfS("cmd"), rfCmd(tag), rfS("client"), rfNum(int32(6*1+1)))
+	return rfRec(rfS("term"), rfNum(rfRange(tag+".term", 1, maxTerm)), rfS("cmd"), rfCmd(tag), rfS("client"), rfNum(rfClientID))
 }
 
 func rfSubset(tag string, n int) tla.Value {
@@ -135,7 +141,7 @@ func (s *rfSys) arbitrary(vary string) (*specState, int32) {
 	put("currentTerm", rfNum(term))
 	var log []tla.Value
 	if has("log") {
-		for k, l := 0, verifChoose("loglen", 3); k < l; k++ {
+		for k, l := 0, verifChoose("loglen", rfMaxLog+1); k < l; k++ {
 			log = append(log, rfEntry("log", term))
 		}
 		// terms in a log never decrease (true of every Raft log; keeps LastTerm meaningful)
@@ -268,9 +274,13 @@ func (s *rfSys) relation(key, label string, pre *specState) []*specState {
 	return posts
 }
 
-func HarnessRaft_HandleMsg() {
+func HarnessRaft_HandleMsg()     { rfMaxLog = 1; rfHandleMsg(3) }
+func HarnessRaft_HandleMsgDeep() { rfMaxLog = 2; rfHandleMsg(2 + verifChoose("servers", 2)) }
+func HarnessRaft_Roles()         { rfMaxLog = 1; rfRoles(3) }
+func HarnessRaft_RolesDeep()     { rfMaxLog = 2; rfRoles(2 + verifChoose("servers", 2)) }
+
+func rfHandleMsg(n int) {
 	verifUnwind(1000000, false)
-	n := 2 + verifChoose("servers", 2)
 	s := rfNew(n, 1)
 	typ := verifChoose("mtype", 5)
 	vary := []string{"log votedFor leader", "votes leader votedFor", "log commit sm leader votedFor", "index leader votedFor", "log leader"}[typ]
@@ -281,7 +291,7 @@ func HarnessRaft_HandleMsg() {
 	base := []tla.Value{rfS("mterm"), rfNum(mterm), rfS("msource"), rfNum(j), rfS("mdest"), rfNum(1)}
 	switch typ {
 	case 0:
-		m = rfRec(append(base, rfS("mtype"), rfS("rvq"), rfS("mlastLogTerm"), rfNum(rfRange("mlastLogTerm", 0, 3)), rfS("mlastLogIndex"), rfNum(rfRange("mlastLogIndex", 0, 3)))...)
+		m = rfRec(append(base, rfS("mtype"), rfS("rvq"), rfS("mlastLogTerm"), rfNum(rfRange("mlastLogTerm", 0, 2)), rfS("mlastLogIndex"), rfNum(rfRange("mlastLogIndex", 0, 2)))...)
 	case 1:
 		m = rfRec(append(base, rfS("mtype"), rfS("rvp"), rfS("mvoteGranted"), tla.MakeBool(verifNondetBool("mvoteGranted")))...)
 	case 2:
@@ -289,8 +299,8 @@ func HarnessRaft_HandleMsg() {
 		for k, l := 0, verifChoose("nentries", 2); k < l; k++ {
 			entries = append(entries, rfEntry("mentry", mterm))
 		}
-		m = rfRec(append(base, rfS("mtype"), rfS("apq"), rfS("mprevLogIndex"), rfNum(rfRange("mprevLogIndex", 0, 2)), rfS("mprevLogTerm"), rfNum(rfRange("mprevLogTerm", 0, 3)),
-			rfS("mentries"), tla.MakeTuple(entries...), rfS("mcommitIndex"), rfNum(rfRange("mcommitIndex", 0, 3)))...)
+		m = rfRec(append(base, rfS("mtype"), rfS("apq"), rfS("mprevLogIndex"), rfNum(rfRange("mprevLogIndex", 0, 2)), rfS("mprevLogTerm"), rfNum(rfRange("mprevLogTerm", 0, 2)),
+			rfS("mentries"), tla.MakeTuple(entries...), rfS("mcommitIndex"), rfNum(rfRange("mcommitIndex", 0, 2)))...)
 	case 3:
 		m = rfRec(append(base, rfS("mtype"), rfS("app"), rfS("msuccess"), tla.MakeBool(verifNondetBool("msuccess")), rfS("mmatchIndex"), rfNum(rfRange("mmatchIndex", 0, 2)))...)
 	case 4:
@@ -299,8 +309,8 @@ func HarnessRaft_HandleMsg() {
 		if cmd.ApplyFunction(rfS("type")).AsString() == "get" {
 			mt = "cgq"
 		}
-		m = rfRec(rfS("mtype"), rfS(mt), rfS("mcmd"), cmd, rfS("msource"), rfNum(7), rfS("mdest"), rfNum(1))
-		j = 7
+		m = rfRec(rfS("mtype"), rfS(mt), rfS("mcmd"), cmd, rfS("msource"), rfNum(rfClientID), rfS("mdest"), rfNum(1))
+		j = rfClientID
 	}
 	pre.put("m", specPut(pre.get("m"), []tla.Value{rfNum(1)}, m))
 	s.setPC(pre, "s0", "handleMsg")
@@ -342,9 +352,8 @@ func HarnessRaft_HandleMsg() {
 }
 
 // the other four archetypes of server i: election start, AppendEntries sending, commit advance + apply, become leader
-func HarnessRaft_Roles() {
+func rfRoles(n int) {
 	verifUnwind(1000000, false)
-	n := 2 + verifChoose("servers", 2)
 	s := rfNew(n, 1)
 	which := verifChoose("label", 6)
 	pre, _ := s.arbitrary([]string{"", "log", "", "log index commit", "log index commit", "votes log"}[which])
